@@ -7,6 +7,15 @@ ROOT = os.path.dirname(os.path.dirname(os.path.abspath(__file__)))
 ALL = [f"C{i:02d}" for i in range(1, 21)]
 
 CLAIMED = {
+    "C01": dict(
+        text="Bounded symbolic execution (CrossHair/z3) of STOR/APPE/RETR through the real dispatcher, workers, AsyncStreamIterator, ThrottleStreamIO and MemoryPathIO with symbolic "
+             "payload length, block size, restart offset (real REST), old length, network segmentation and short-read sizes against a POSIX reference (exact stored bytes, file[off:] delivered "
+             "in order, data socket closed, 150 then 226, no file left open, MLST after 226 shows the new size); mangle-prone byte values exhaustively; the real Client's "
+             "upload/append/download streams end to end over a simulated network.",
+        note="Trusted: CrossHair/z3, scripted data socket (read(n) returns an arbitrary non-empty prefix), SimNet (ordered, lossless). Outside: payloads > bound, block sizes > 3, TLS, other backends.",
+        technique="bounded symbolic execution of the real Python code (CrossHair 0.0.110 + z3): differential harness against a POSIX write/read reference",
+        design_ref="DESIGN.md section 3 C01",
+    ),
     "C10": dict(
         text="Bounded symbolic execution (CrossHair/z3) of the real dispatcher / greeting / user / pass_ / MemoryUserManager / AvailableConnections with SYMBOLIC counter values "
              "(server-wide and two users; the holdings of all other sessions are symbolic integers, so the step is inductive in them): counters between commands equal start minus "
